@@ -63,7 +63,8 @@ class Clock(i_lib.Clock):
     def wait_until(self, time_pattern):
         hour, minute = Clock._hour_minute()
         while not time_pattern.match(hour, minute):
-            self.wait()
+            if not self.wait():
+                return
             hour, minute = Clock._hour_minute()
         self.reset()
 
